@@ -33,7 +33,7 @@ class C13(Check):
         "CPython reference counting: an instance is dead when the harness drops its only reference (and after gc.collect() for safety)",
         "results of earlier queries are dropped by the harness before the next step, so that they do not keep instances alive; "
         "query objects that are kept for re-evaluation keep the instances they returned alive (the census counts them as live)",
-        "instances created before a SymbolGraph clear are not expected afterwards (a new graph starts empty)",
+        "instances created before a SymbolGraph clear are not expected afterwards (a new graph starts empty); queries declared before the clear are kept and must range over the new graph's instances",
     ]
     budget = {
         "quick": dict(examples=250, shards=16, seconds=75),
@@ -181,11 +181,13 @@ class C13(Check):
                 elif k == "clear":
                     SymbolGraph().clear()
                     SymbolGraph()
-                    # a new graph starts empty: earlier instances, declared variables and queries belong to the old one
+                    # a new graph starts empty: earlier instances belong to the old one. Variables and queries that were
+                    # declared before keep ranging over "the instances that currently exist", i.e. those of the new graph
                     census.clear()
                     live.clear()
-                    declared.clear()
-                    evaluated.clear()
+                    gc.collect()
+                    if declared or evaluated:
+                        classes.add("query_declared_before_clear")
                     classes.add("clear")
             except Exception as exc:
                 return crash(exc, f"op {n} {op}", classes=sorted(classes), nontrivial=nontrivial_query)
